@@ -442,6 +442,159 @@ def r05_8(ctx: Ctx):
     return who_may_evaluate(ctx, "R05.8")
 
 
+def _flip(op):
+    return {ast.Lt: ast.Gt, ast.Gt: ast.Lt, ast.LtE: ast.GtE, ast.GtE: ast.LtE}.get(type(op), type(op))
+
+
+def r05_9(ctx: Ctx):
+    """R05.9 the shipped stop conditions `run()` consults are what the property names them for: MetaepochLimit(n) is
+    `counter >= n` (exactly n metaepochs), DontRun is constantly true, DontStop constantly false, AllStopped is the emptiness of
+    the listing of ALL active demes, the evaluation limits read the live counters with `>=` (R03.6); and none of them keeps its
+    verdict in the condition object (a latched verdict answers for a tree it was never asked about)."""
+    import copy
+
+    from ..core import _Subst, canon, local_defs
+    from ..model import body_walk
+    from . import c03
+    from .common import deme_listing
+
+    obs = []
+
+    def single_return(m):
+        rets = [r for r in body_walk(m.node) if isinstance(r, ast.Return)]
+        if len(rets) != 1 or rets[0].value is None:
+            return None, rets
+        return _Subst(local_defs(m), 4).visit(copy.deepcopy(rets[0].value)), rets
+
+    def const_of(m):
+        rets = [r for r in body_walk(m.node) if isinstance(r, ast.Return)]
+        vals = {r.value.value if isinstance(r.value, ast.Constant) else "?" for r in rets}
+        return vals
+
+    # -- constants
+    for cname, want in (("DontRun", True), ("DontStop", False)):
+        try:
+            m = ctx.prog.own_method(cname, "__call__")
+        except Exception:
+            m = None
+        if m is None:
+            continue
+        vals = const_of(m)
+        st = OK if vals == {want} else VIOLATION if vals and "?" not in vals and all(isinstance(v, bool) for v in vals) else INCONCLUSIVE
+        obs.append(ctx.ob("R05.9", m, m.node, status=st, detail=f"{cname} is constantly {want}" if st == OK else f"{cname}.__call__ returns {sorted(map(str, vals))}: {'run() performs metaepochs under DontRun' if want else 'run() returns although nothing asked it to stop'}", construct=cname))
+    # -- MetaepochLimit
+    try:
+        m = ctx.prog.own_method("MetaepochLimit", "__call__")
+    except Exception:
+        m = None
+    if m is not None:
+        rv, rets = single_return(m)
+        sn, tp = m.self_name(), m.params()[1]
+        st, why = INCONCLUSIVE, f"MetaepochLimit returns `{norm(rv)[:80] if rv is not None else '?'}`"
+        neg = False
+        e = rv
+        while isinstance(e, ast.UnaryOp) and isinstance(e.op, ast.Not):
+            neg, e = not neg, e.operand
+        if isinstance(e, ast.Compare) and len(e.ops) == 1:
+            l, r, op = canon(e.left), canon(e.comparators[0]), type(e.ops[0])
+            cnt, lim = f"{tp}.metaepoch_count", f"{sn}.limit"
+            if (l, r) == (lim, cnt):
+                l, r, op = r, l, _flip(e.ops[0])
+            if neg:
+                op = {ast.Lt: ast.GtE, ast.GtE: ast.Lt, ast.Gt: ast.LtE, ast.LtE: ast.Gt, ast.Eq: ast.NotEq, ast.NotEq: ast.Eq}.get(op, op)
+            if (l, r) == (cnt, lim):
+                if op is ast.GtE:
+                    st, why = OK, ""
+                elif op in (ast.Gt, ast.Lt, ast.LtE, ast.NotEq):
+                    st, why = VIOLATION, f"MetaepochLimit is `{norm(rv)}`: run() does not stop after exactly `limit` metaepochs ({'one more' if op is ast.Gt else 'the sense of the test is reversed'})"
+            elif l == cnt or r == cnt:
+                other = e.comparators[0] if l == cnt else e.left
+                if isinstance(other, ast.BinOp) and lim in canon(other) and any(isinstance(x, ast.Constant) and isinstance(x.value, (int, float)) and x.value != 0 for x in ast.walk(other)):
+                    st, why = VIOLATION, f"MetaepochLimit compares the counter with `{norm(other)}` instead of the limit itself: the run stops a fixed number of metaepochs away from n"
+        obs.append(ctx.ob("R05.9", m, rets[0] if rets else m.node, status=st, detail="MetaepochLimit(n): metaepoch_count >= n" if st == OK else why, construct="MetaepochLimit"))
+    # -- AllStopped / RootStopped
+    try:
+        m = ctx.prog.own_method("AllStopped", "__call__")
+    except Exception:
+        m = None
+    if m is not None:
+        rv, rets = single_return(m)
+        tp = m.params()[1]
+        acc = None
+        empt = None  # True: verdict is `listing empty`
+        if rv is not None:
+            t = canon(rv)
+            import re as _re
+
+            mm = _re.fullmatch(r"(not)?(?:len\()?(?:list\(|tuple\()?" + _re.escape(tp) + r"\.(\w+)\)?\)?(==0|<1|<=0|!=0|>0|>=1)?", t)
+            if mm and (mm.group(1) or mm.group(3)):
+                acc = mm.group(2)
+                empt = (mm.group(1) is not None and mm.group(3) is None) or (mm.group(1) is None and mm.group(3) in ("==0", "<1", "<=0"))
+        if acc is None:
+            obs.append(ctx.ob("R05.9", m, rets[0] if rets else m.node, status=INCONCLUSIVE, detail=f"AllStopped returns `{norm(rv)[:80] if rv is not None else '?'}`: not read as the emptiness of a listing of demes", construct="AllStopped"))
+        elif not empt:
+            obs.append(ctx.ob("R05.9", m, rets[0], status=VIOLATION, detail=f"AllStopped returns `{norm(rv)[:80]}`: true while demes are active, false once all stopped", construct="AllStopped"))
+        else:
+            d = deme_listing(ctx, "DemeTree", acc)
+            extra = sorted(x for x in d["filters"] if x not in ("is_active",))
+            if d["levels"] is None and not d["filters"]:
+                obs.append(ctx.ob("R05.9", m, rets[0], status=INCONCLUSIVE, detail=f"AllStopped is the emptiness of tree.{acc}, which is not understood ({d['why']})", construct="AllStopped"))
+            elif d["levels"] is not None and d["levels"] < 0:
+                obs.append(ctx.ob("R05.9", m, rets[0], status=VIOLATION, detail=f"AllStopped is the emptiness of tree.{acc}, which leaves out the last {-d['levels']} level(s): run() returns while demes there are still active", construct="AllStopped"))
+            elif "is_active" not in d["filters"]:
+                obs.append(ctx.ob("R05.9", m, rets[0], status=VIOLATION if not extra else INCONCLUSIVE, detail=f"AllStopped is the emptiness of tree.{acc}, which does not select the active demes (filters: {sorted(d['filters'])})", construct="AllStopped"))
+            elif extra:
+                hib = [x for x in extra if "_hibernating" in x or "hibernat" in x]
+                obs.append(ctx.ob("R05.9", m, rets[0], status=VIOLATION if hib or any(x.startswith("not is_active") for x in extra) else INCONCLUSIVE, detail=f"AllStopped is the emptiness of tree.{acc}, which drops active demes by a further condition ({', '.join(extra)[:120]}): {'a sleeping deme is active, yet run() returns as if every deme had stopped' if hib else 'run() may return while such demes are active'}", construct="AllStopped"))
+            elif d["levels"] is None:
+                obs.append(ctx.ob("R05.9", m, rets[0], status=INCONCLUSIVE, detail=f"AllStopped: the levels tree.{acc} ranges over are not understood ({d['why']})", construct="AllStopped"))
+            else:
+                obs.append(ctx.ob("R05.9", m, rets[0], detail=f"AllStopped: no deme of any level is active (tree.{acc} empty)", construct="AllStopped"))
+    # -- evaluation limits: R03.6
+    for o in c03.r03_6(ctx):
+        if not getattr(o, "trivial", False):
+            o.rule = "R05.9"
+            obs.append(o)
+    # -- no latched verdicts
+    n = 0
+    for ci in ctx.prog.classes.values():
+        if not ci.module.name.startswith("pyhms.stop_conditions"):
+            continue
+        m = ci.methods.get("__call__")
+        if m is None:
+            continue
+        sn = m.self_name()
+        n += 1
+        defs = local_defs(m)
+        written = {}
+        for x in body_walk(m.node):
+            if isinstance(x, (ast.Assign, ast.AugAssign, ast.AnnAssign)) and getattr(x, "value", None) is not None:
+                for t in (x.targets if isinstance(x, ast.Assign) else [x.target]):
+                    if is_self_attr(t, None, sn):
+                        v = _Subst(defs, 3).visit(copy.deepcopy(x.value))
+                        boolish = isinstance(v, (ast.Compare, ast.BoolOp)) or (isinstance(v, ast.Constant) and isinstance(v.value, bool)) or (isinstance(v, ast.UnaryOp) and isinstance(v.op, ast.Not)) or (isinstance(v, ast.Call) and norm(v.func) in ("bool", "any", "all"))
+                        if boolish:
+                            written[t.attr] = x
+        used = None
+        for x in body_walk(m.node):
+            exprs = []
+            if isinstance(x, ast.Return) and x.value is not None:
+                exprs.append(x.value)
+            elif isinstance(x, (ast.If, ast.While)):
+                exprs.append(x.test)
+            for e in exprs:
+                for y in ast.walk(e):
+                    if is_self_attr(y, None, sn) and y.attr in written and used is None:
+                        used = (x, y.attr)
+        if used is not None:
+            obs.append(ctx.ob("R05.9", m, written[used[1]], status=VIOLATION, detail=f"{ci.name} keeps its verdict in the condition object (`{norm(written[used[1]])[:80]}`) and answers from it (`{norm(used[0])[:60]}`): once true it is true for every tree and every later run that shares the object, so run() returns before the condition holds for THAT tree", construct=f"{ci.name}:latched"))
+        else:
+            obs.append(ctx.ob("R05.9", m, m.node, detail=f"{ci.name}: the verdict is computed from the argument on every consult", construct=f"{ci.name}:stateless"))
+    if n < 8:
+        raise AnalysisError(f"only {n} stop-condition classes with __call__ found")
+    return obs
+
+
 RULES = [
     ("R05.1", r05_1, 1),
     ("R05.2", r05_2, 2),
@@ -450,4 +603,5 @@ RULES = [
     ("R05.5", r05_5, 6),
     ("R05.7", r05_7, 9),
     ("R05.8", r05_8, 1),
+    ("R05.9", r05_9, 12),
 ]
